@@ -7,7 +7,7 @@ Section Proofs.
   Variable evm_denom : bytes.
 
   (** Assumed behaviour of the external functions. *)
-  Hypothesis hid_inj : forall t d t' d', hid t d = hid t' d' -> t = t' /\ d = d'.
+  Hypothesis hid_inj : forall t d t' d', is_hex_address t = true -> is_hex_address t' = true -> hid t d = hid t' d' -> t = t' /\ d = d'.
   Hypothesis hid_nonempty : forall t d, hid t d <> [].
   Hypothesis canon_hex : forall a, is_hex_address (canon a) = true.
   Hypothesis canon_addr : forall a, length a = 20%nat -> addr_of (canon a) = a.
@@ -42,10 +42,12 @@ Section Proofs.
   Lemma pair_id_nonempty p id : pair_id p = Ok id -> id <> [].
   Proof. intro H. apply pair_id_ok in H as (d0 & r & _ & ->). apply hid_nonempty. Qed.
 
-  Lemma pair_id_inj p q id : pair_id p = Ok id -> pair_id q = Ok id -> p_text p = p_text q.
+  Lemma pair_id_inj p q id :
+    is_hex_address (p_text p) = true -> is_hex_address (p_text q) = true ->
+    pair_id p = Ok id -> pair_id q = Ok id -> p_text p = p_text q.
   Proof.
-    intros Hp Hq. apply pair_id_ok in Hp as (d0 & r & _ & ->). apply pair_id_ok in Hq as (d1 & r1 & _ & E).
-    apply hid_inj in E. tauto.
+    intros Wp Wq Hp Hq. apply pair_id_ok in Hp as (d0 & r & _ & ->). apply pair_id_ok in Hq as (d1 & r1 & _ & E).
+    apply (hid_inj _ _ _ _ Wp Wq) in E. tauto.
   Qed.
 
   (** No denomination and no contract belongs to two pairs. *)
@@ -252,8 +254,8 @@ Section Proofs.
       + unfold pair_wf; cbn. split; [discriminate|]. split; [repeat constructor; intros [] | apply canon_hex].
       + reflexivity.
       + destruct (aget (hid (canon deploy) (md_base md)) (st_pairs s)) as [q|] eqn:Eq; [|exact Eq]. exfalso.
-        destruct (c_pair _ _ _ C _ _ Eq) as (_ & Iq & Eq' & _).
-        apply pair_id_ok in Iq as (d0 & r & _ & X). apply hid_inj in X as [X _].
+        destruct (c_pair _ _ _ C _ _ Eq) as ((_ & _ & Wq) & Iq & Eq' & _).
+        apply pair_id_ok in Iq as (d0 & r & _ & X). apply (hid_inj _ _ _ _ (canon_hex _) Wq) in X as [X _].
         rewrite <- X, canon_addr in Eq' by exact L. congruence.
       + cbn. rewrite canon_addr by exact L. exact Fr.
       + cbn. intros d [<-|[]]. exact HB.
@@ -312,8 +314,8 @@ Section Proofs.
       + unfold pair_wf; cbn. split; [discriminate|]. split; [repeat constructor; intros [] | apply canon_hex].
       + reflexivity.
       + destruct (aget (hid (canon a) (create_denom (canon a))) (st_pairs s)) as [x|] eqn:Eq; [|exact Eq]. exfalso.
-        destruct (c_pair _ _ _ C _ _ Eq) as (_ & Iq & Eq' & _).
-        apply pair_id_ok in Iq as (d0 & r & _ & X). apply hid_inj in X as [X _].
+        destruct (c_pair _ _ _ C _ _ Eq) as ((_ & _ & Wq) & Iq & Eq' & _).
+        apply pair_id_ok in Iq as (d0 & r & _ & X). apply (hid_inj _ _ _ _ (canon_hex _) Wq) in X as [X _].
         rewrite <- X, canon_addr in Eq' by exact L. congruence.
       + cbn. rewrite canon_addr by exact L. exact Ea.
       + cbn. intros d [<-|[]]. exact Ed.
@@ -390,8 +392,8 @@ Section Proofs.
       + reflexivity.
       + rewrite aget_adel. destruct (bytes_eqb (hid (canon new) d0) id); [reflexivity|].
         destruct (aget (hid (canon new) d0) (st_pairs s)) as [x|] eqn:Eq; [|reflexivity]. exfalso.
-        destruct (c_pair _ _ _ C _ _ Eq) as (_ & Iq & Eq' & _).
-        apply pair_id_ok in Iq as (d1 & r1 & _ & Y). apply hid_inj in Y as [Y _].
+        destruct (c_pair _ _ _ C _ _ Eq) as ((_ & _ & Wq) & Iq & Eq' & _).
+        apply pair_id_ok in Iq as (d1 & r1 & _ & Y). apply (hid_inj _ _ _ _ (canon_hex _) Wq) in Y as [Y _].
         rewrite <- Y, canon_addr in Eq' by exact L. congruence.
       + rewrite <- X. rewrite aget_adel. destruct (bytes_eqb new (addr_of (p_text p))); [reflexivity | exact En].
       + intros d Hd. cbn [p_denoms p'] in Hd. rewrite aget_del_denoms. apply existsb_eqb_In in Hd. rewrite Hd. reflexivity.
@@ -475,8 +477,8 @@ Section Proofs.
         - unfold pair_wf. rewrite Eds. split; [discriminate|]. rewrite <- Eds. split; assumption.
         - unfold Registry.pair_id. rewrite Eds. reflexivity.
         - destruct (aget id (st_pairs s)) as [q|] eqn:Eq; [|reflexivity]. exfalso.
-          destruct (c_pair _ _ _ C _ _ Eq) as (_ & Iq & Eq' & _).
-          apply pair_id_ok in Iq as (d1 & r1 & _ & Y). apply hid_inj in Y as [Y _].
+          destruct (c_pair _ _ _ C _ _ Eq) as ((_ & _ & Wq) & Iq & Eq' & _).
+          apply pair_id_ok in Iq as (d1 & r1 & _ & Y). apply (hid_inj _ _ _ _ Ev2 Wq) in Y as [Y _].
           rewrite <- Y in Eq'. apply E1. exact (SE _ _ Eq').
         - destruct (aget (addr_of (p_text p)) (st_erc20 s)) eqn:Eq; [|reflexivity]. exfalso. apply E1. exact (SE _ _ Eq).
         - intros d Hd. destruct (aget d (st_denom s)) eqn:Eq; [|reflexivity]. exfalso. apply (NI _ Hd). exact (SD _ _ Eq). }
@@ -555,11 +557,16 @@ Section Proofs.
 
   (** * What each operation does to the pair records and to the denomination index (shapes) *)
 
+  (** the pair keeps its denominations IN ORDER (new ones are only appended: Denoms[0], hence the id for a given
+      contract, never changes), its owner and its enabled flag *)
   Definition evolved (p p' : pair) : Prop :=
-    incl (p_denoms p) (p_denoms p') /\ p_owner p' = p_owner p /\ p_enabled p' = p_enabled p.
+    (exists ext, p_denoms p' = p_denoms p ++ ext) /\ p_owner p' = p_owner p /\ p_enabled p' = p_enabled p.
 
   Lemma evolved_refl p : evolved p p.
-  Proof. split; [apply incl_refl | split; reflexivity]. Qed.
+  Proof. split; [exists []; rewrite app_nil_r; reflexivity | split; reflexivity]. Qed.
+
+  Lemma evolved_incl p p' : evolved p p' -> incl (p_denoms p) (p_denoms p').
+  Proof. intros [[ext E] _]. rewrite E. apply incl_appl, incl_refl. Qed.
 
   (** [old_or_new s s' P]: every denomination entry of [s'] is an entry of [s] or satisfies [P] *)
   Definition denoms_from (s s' : state) (Q : bytes -> Prop) : Prop :=
@@ -595,8 +602,8 @@ Section Proofs.
     destruct I as [C F]. split; [|split].
     - eapply keeps_fresh; [cbn [st_pairs]; rewrite EP; reflexivity|].
       destruct (aget (hid (canon deploy) (md_base md)) (st_pairs s)) as [q|] eqn:Eq; [|reflexivity]. exfalso.
-      destruct (c_pair _ _ _ C _ _ Eq) as (_ & Iq & Eq' & _).
-      apply pair_id_ok in Iq as (d0 & r & _ & X). apply hid_inj in X as [X _].
+      destruct (c_pair _ _ _ C _ _ Eq) as ((_ & _ & Wq) & Iq & Eq' & _).
+      apply pair_id_ok in Iq as (d0 & r & _ & X). apply (hid_inj _ _ _ _ (canon_hex _) Wq) in X as [X _].
       rewrite <- X, canon_addr in Eq' by exact L. congruence.
     - intros d id' Hd. cbn [st_denom] in Hd. rewrite aget_set_denoms in Hd. cbn [existsb] in Hd. rewrite orb_false_r in Hd.
       destruct (bytes_eqb_spec d (md_base md)) as [->|N]; [right; exact HX | left; rewrite ED in Hd; eauto].
@@ -620,7 +627,7 @@ Section Proofs.
     apply Ok_inj in H. subst s'. split; [|split].
     - intros i q Hq. cbn [st_pairs]. rewrite EP. destruct (bytes_eqb_spec i id) as [->|N].
       + exists id, p'. rewrite aget_aset, bytes_eqb_refl. split; [reflexivity|].
-        rewrite Ep in Hq. inversion Hq; subst q. split; [apply incl_appl, incl_refl | split; reflexivity].
+        rewrite Ep in Hq. inversion Hq; subst q. split; [exists [md_base md]; reflexivity | split; reflexivity].
       + exists i, q. rewrite aget_aset. destruct (bytes_eqb_spec i id); [contradiction|]. split; [exact Hq | apply evolved_refl].
     - intros d i Hd. cbn [st_denom] in Hd. rewrite aget_aset in Hd.
       destruct (bytes_eqb_spec d (md_base md)) as [->|N]; [right; exact HX | left; rewrite ED in Hd; eauto].
@@ -644,8 +651,8 @@ Section Proofs.
     split; [|split].
     - eapply keeps_fresh; [cbn [st_pairs with_meta]; reflexivity|].
       destruct (aget (hid (canon a) (create_denom (canon a))) (st_pairs s)) as [x|] eqn:Eq; [|reflexivity]. exfalso.
-      destruct (c_pair _ _ _ C _ _ Eq) as (_ & Iq & Eq' & _).
-      apply pair_id_ok in Iq as (d0 & r & _ & X). apply hid_inj in X as [X _].
+      destruct (c_pair _ _ _ C _ _ Eq) as ((_ & _ & Wq) & Iq & Eq' & _).
+      apply pair_id_ok in Iq as (d0 & r & _ & X). apply (hid_inj _ _ _ _ (canon_hex _) Wq) in X as [X _].
       rewrite <- X, canon_addr in Eq' by exact L. congruence.
     - intros d id' Hd. cbn [st_denom with_meta] in Hd. rewrite aget_set_denoms in Hd. cbn [existsb] in Hd. rewrite orb_false_r in Hd.
       destruct (bytes_eqb_spec d (create_denom (canon a))) as [->|N]; [right; intros _; apply create_denom_not_hex | left; eauto].
@@ -706,11 +713,11 @@ Section Proofs.
     split; [|split; [|reflexivity]].
     - intros i x Hx. cbn [st_pairs with_meta]. destruct (bytes_eqb_spec i id) as [->|N].
       + exists (hid (canon new) d0), p'. rewrite aget_aset, bytes_eqb_refl. split; [reflexivity|].
-        rewrite Ep in Hx. inversion Hx; subst x. split; [rewrite Eds; apply incl_refl | split; reflexivity].
+        rewrite Ep in Hx. inversion Hx; subst x. split; [exists []; rewrite app_nil_r, Eds; reflexivity | split; reflexivity].
       + exists i, x. split; [|apply evolved_refl]. rewrite aget_aset, aget_adel.
         destruct (bytes_eqb_spec i (hid (canon new) d0)) as [->|N2].
-        * exfalso. destruct (c_pair _ _ _ C _ _ Hx) as (_ & Iq & Eq' & _).
-          apply pair_id_ok in Iq as (d1 & r1 & _ & Y). apply hid_inj in Y as [Y _].
+        * exfalso. destruct (c_pair _ _ _ C _ _ Hx) as ((_ & _ & Wq) & Iq & Eq' & _).
+          apply pair_id_ok in Iq as (d1 & r1 & _ & Y). apply (hid_inj _ _ _ _ (canon_hex _) Wq) in Y as [Y _].
           rewrite <- Y, canon_addr in Eq' by exact L. congruence.
         * destruct (bytes_eqb_spec i id); [contradiction | exact Hx].
     - intros d i Hd. cbn [st_denom with_meta] in Hd. rewrite aget_set_denoms in Hd. left.
@@ -912,7 +919,7 @@ Section Proofs.
       destruct (c_denom _ _ _ C _ _ Y) as (q & Hq & Iq). rewrite Hp in Hq. inversion Hq; subst q. exact Iq. }
     destruct X as (En & Ep & Hp & Hd).
     destruct (step_tracks _ o _ _ R (conj C F) A Hp) as [E|[(id' & p' & Hp' & Ev) En']]; [left; exact E | right].
-    exists p'. split; [|exact Ev]. destruct Ev as (Inc & _ & Een).
+    exists p'. split; [|exact Ev]. pose proof (evolved_incl _ _ Ev) as Inc. destruct Ev as (_ & _ & Een).
     apply (minting_enabled_complete _ id'); try assumption; [apply En'; exact En | rewrite Een; exact Ep | apply Inc; exact Hd].
   Qed.
 
@@ -980,7 +987,7 @@ Section Head.
   Variable hid : bytes -> bytes -> bytes.
   Variable canon : bytes -> bytes.
   Variable evm_denom : bytes.
-  Hypothesis hid_inj : forall t d t' d', hid t d = hid t' d' -> t = t' /\ d = d'.
+  Hypothesis hid_inj : forall t d t' d', is_hex_address t = true -> is_hex_address t' = true -> hid t d = hid t' d' -> t = t' /\ d = d'.
   Hypothesis hid_nonempty : forall t d, hid t d <> [].
   Hypothesis canon_hex : forall a, is_hex_address (canon a) = true.
   Hypothesis canon_addr : forall a, length a = 20%nat -> addr_of (canon a) = a.
@@ -1006,7 +1013,7 @@ Section Head.
   Proof.
     intros G A. split.
     - exact (proj1 (step_inv hid canon evm_denom hid_inj canon_hex canon_addr head s o head_repaired (good_inv _ G) A)).
-    - exact (step_nohex hid canon evm_denom hid_inj canon_addr head s o head_repaired eq_refl (good_inv _ G) (proj2 G) A).
+    - exact (step_nohex hid canon evm_denom hid_inj canon_hex canon_addr head s o head_repaired eq_refl (good_inv _ G) (proj2 G) A).
   Qed.
 
   Lemma registry_consistent os : forall s, Good s -> admissible_run s os -> Good (run s os).
